@@ -10,4 +10,9 @@ REVIEWED = {
     "R3d-ii|transparent|canonical_path_cache":
         "memo of Path::canonicalize keyed by the path itself: its value is a function of the key and the file system, never of "
         "index state, so cached computations that read it cannot go stale through it",
+    "R3a-cond|definitions":
+        "definitions are deliberately not cleaned on the initial-scan path (performance); the consequence when a document is "
+        "opened before the scan reaches it is the recorded C10 known finding (R3e2), not a second finding here",
+    "R3a-cond|file_definitions":
+        "reverse index of `definitions`, cleared by the same conditional call (see R3a-cond|definitions)",
 }
